@@ -161,6 +161,10 @@ loop:
 				break loop
 			case d == nil:
 				outs = append(outs, "nil")
+				// only a name of one segment has no child / no parent
+				if strings.Contains(cur.Name(), "::") {
+					setFail("derive-wrong", fmt.Sprintf("%s of %q is nil although the name has more than one segment", at, cur.Name()))
+				}
 				break loop
 			}
 			outs = append(outs, "moved")
@@ -236,7 +240,8 @@ func genKey(g *core.G) {
 		}
 	}
 	rec(nil)
-	names := []string{"a", "Ab::Cd::ef", "::A::b", "a::", "", "a:::b", "A::1b", "\u212ax::Foo", "\u0130x::Foo::Bar", "\u023ax::Foo", "\u00c9::\u00e9", "a::\u212a"}
+	names := []string{"a", "Ab::Cd::ef", "::A::b", "a::", "", "a:::b", "A::1b", "\u212ax::Foo", "\u0130x::Foo::Bar", "\u023ax::Foo", "\u00c9::\u00e9", "a::\u212a",
+		"::::a", "::::A::b"} // (the last two: the constructor strips ONE leading `::`, the first segment of the stored name is empty)
 	rt := string(px.RuntimeNameAuthority)
 	for _, n := range names {
 		for _, s := range scripts {
@@ -246,7 +251,7 @@ func genKey(g *core.G) {
 	r := g.Rng
 	auths := []string{rt, "http://\u212a.example", "", "x", "HTTP://EXAMPLE.COM/\u0130"}
 	nss := []string{"type", "Type", "", "t\u00c9pe", "function"}
-	segs := []string{"a", "Ab", "B_1", "\u212a", "\u0130x", "\u023a", "\u00e9", "1x", "", "x y"}
+	segs := []string{"a", "Ab", "B_1", "\u212a", "\u0130x", "\u023a", "\u00e9", "1x", "", "", "x y"}
 	for i := 0; i < 400*g.Scale; i++ {
 		var parts []string
 		for j, k := 0, 1+r.Intn(4); j < k; j++ {
